@@ -20,6 +20,10 @@ def app_rules(dist, shape):
         progs = [{'name': 'a', 'start_sequence': 1, 'expected_loading': 40},
                  {'name': 'b', 'start_sequence': 1, 'expected_loading': 40},
                  {'name': 'c', 'start_sequence': 2, 'expected_loading': 30, 'wait_exit': True}]
+    elif shape == 'init':    # a wait_exit program BEFORE the others: its load is released when it has exited
+        progs = [{'name': 'c', 'start_sequence': 1, 'expected_loading': 60, 'wait_exit': True},
+                 {'name': 'a', 'start_sequence': 2, 'expected_loading': 60},
+                 {'name': 'b', 'start_sequence': 2, 'expected_loading': 30}]
     elif shape == 'light':
         progs = [{'name': 'a', 'start_sequence': 1, 'expected_loading': 10},
                  {'name': 'b', 'start_sequence': 2, 'expected_loading': 10},
@@ -39,7 +43,7 @@ def settle(w):
             w.apply(e)
 
 
-def build(loads, dist, shape):
+def build(loads, dist, shape, history='fresh'):
     apps = [LD, app_rules(dist, shape)]
     sc = make_scenario(3, config={'synchro_options': 'LIST', 'synchro_timeout': '20'}, rules=rules_xml(apps),
                        groups=groups_of(apps), node_of=NODE_OF)
@@ -53,6 +57,16 @@ def build(loads, dist, shape):
                 w.drain()
                 w.apply(('proc', i, 'ld:' + name, 'run'))
                 w.drain()
+    if history != 'fresh':
+        # the application has run before: app:a (and app:b) ended on their own and are EXITED, not STOPPED
+        for ns, how in (('app:a', 'exit_bad'), ('app:b', 'exit_ok'))[:1 if history == 'exited-a' else 2]:
+            w.apply(('ustart', 0, ns))
+            w.drain()
+            w.apply(('proc', 0, ns, 'run'))
+            w.drain()
+            w.apply(('proc', 0, ns, how))
+            w.drain()
+        w.round_robin(1)
     w.drain_observations()
     return w
 
@@ -64,11 +78,12 @@ def internal_state(s):
 
 
 def job(arg):
-    loads, dist, shape, strategy, requester, repeats, what = arg
+    loads, dist, shape, strategy, requester, repeats, what = arg[:7]
+    history = arg[7] if len(arg) > 7 else 'fresh'
     case = {'loads': loads, 'distribution': dist, 'shape': shape, 'strategy': strategy, 'requester': requester,
-            'repeats': repeats, 'what': what}
+            'repeats': repeats, 'what': what, 'history': history}
     out = []
-    w = build(loads, dist, shape)
+    w = build(loads, dist, shape, history)
     before = [observable(s) for s in w.sups]
     internal_before = [internal_state(s) for s in w.sups]
     pred = None
@@ -110,7 +125,7 @@ def job(arg):
         out.append({'clause': 'prediction-changes-jobs', 'signature': 'C19:side-effect:jobs'})
     # (2) the prediction is what a real start does when every process starts normally
     if isinstance(pred, list):
-        w2 = build(loads, dist, shape)
+        w2 = build(loads, dist, shape, history)
         if what == 'application':
             res2 = w2.user_rpc(requester, 'start_application', (strategy, 'app', False))
         else:
@@ -149,10 +164,13 @@ def main():
     jobs = []
     for loads in (loads_q if t == 'quick' else loads_all):
         for dist in ('ALL_INSTANCES', 'SINGLE_INSTANCE', 'SINGLE_NODE'):
-            for shape in ('flat', 'seq', 'light'):
+            for shape in ('flat', 'seq', 'light', 'init'):
                 for st in STRATS:
                     for requester in (0, 2):
                         jobs.append((loads, dist, shape, st, requester, 1 if requester == 0 else 3, 'application'))
+                    if shape in ('flat', 'seq'):
+                        for history in ('exited-a', 'exited-ab'):
+                            jobs.append((loads, dist, shape, st, 0, 1, 'application', history))
         for st in STRATS:
             jobs.append((loads, 'ALL_INSTANCES', 'flat', st, 1, 2, 'process'))
     workers = int(os.environ.get('VERIF_WORKERS', '16'))
@@ -176,8 +194,8 @@ def main():
     cov['outcome_kinds'] = kinds
     cov['samples'] = samples
     cov['rule'] = ('3 instances on 2 nodes brought to OPERATION, load tables built by really starting load processes, '
-                   '3 distribution rules x 3 application shapes (one sequence / two sequences with wait_exit / light with a '
-                   'sequence-0 program) x 6 strategies x 2 requesters (1 and 3 repeated predictions) + test_start_process: '
+                   '3 distribution rules x 4 application shapes (one sequence / two sequences with a final wait_exit / a '
+                   'leading wait_exit program / light with a sequence-0 program), fresh or with programs EXITED by an earlier run, x 6 strategies x 2 requesters (1 and 3 repeated predictions) + test_start_process: '
                    '(1) the full observable snapshot of every instance (all status payloads incl. inner process info, rules) '
                    'and the canonical Starter / Stopper / failure-handler state are compared before / after, and nothing may '
                    'be emitted; (2) a second world rebuilt from the same history performs the real start with every process '
@@ -189,7 +207,7 @@ def main():
 def replay(payload):
     case = payload['events'][0]
     arg = (tuple(case['loads']), case['distribution'], case['shape'], case['strategy'], case['requester'],
-           case['repeats'], case['what'])
+           case['repeats'], case['what'], case.get('history', 'fresh'))
     res = job(arg)
     print(json.dumps(res[1], indent=1, default=str)[:3000])
     print(res[2], res[3])
